@@ -14,7 +14,8 @@ use alloc::sync::Arc;
 use core::mem;
 use core::ops::Deref;
 
-use super::model;
+use super::api::{fresh_handle, AS};
+use super::model::{self, TP};
 use super::{nd, vassert, vcover};
 use crate::access::{Access, AccessConvert, Constant, DynAccess, Map};
 use crate::strategy::hybrid::verif_h as hy;
@@ -53,18 +54,30 @@ fn px(i: &Inner) -> &u8 {
     &i.x
 }
 
-// @harness name=c17_map_snapshot props=C17,C10 tier=quick flavour=nostd timeout=2400 fn=Map::load+MapGuard::deref+Access::load
+fn p_addr(t: &TP) -> &usize {
+    &t.0
+}
+fn p_id(u: &usize) -> &usize {
+    u
+}
+
+// Map of depth 1 and 2 over a container of the abstract pointer kind: one container load per
+// Map::load, deref without any container access, same snapshot before and after a store, snapshot
+// alive while the guard lives and released with it, fresh load sees the new value.
+// @harness name=c17_map_snapshot props=C17,C10 tier=quick flavour=nostd timeout=1800 fn=Map::load+MapGuard::deref+Access::load
 #[cfg_attr(kani, kani::proof)]
 #[cfg_attr(kani, kani::stub(crate::debt::Debt::pay_all, crate::debt::verif_h::pay_all_stub))]
+#[cfg_attr(kani, kani::stub(crate::debt::LocalNode::with, crate::debt::verif_h::list_h::with_static))]
+#[cfg_attr(kani, kani::stub(crate::debt::Node::get, crate::debt::verif_h::list_h::node_get_unexpected))]
 #[cfg_attr(kani, kani::unwind(12))]
 pub(crate) fn c17_map_snapshot() {
-    let v1 = any_cfg();
-    let v2 = any_cfg();
-    let a1 = Arc::new(v1);
-    let s: S = ArcSwapAny::with_strategy(a1.clone(), hy::strategy::<DefaultConfig>());
-    let m1 = Map::new(&s, pa);
-    let m2 = Map::new(Map::new(&s, pa), px);
-    drop(s.load()); // the thread's first use of the crate (node allocation) is not part of the contract
+    crate::debt::verif_h::list_h::setup_thread_node();
+    hy::fresh_ledger();
+    let (init, other) = (0usize, 1usize);
+    let s: AS<DefaultConfig> = ArcSwapAny::with_strategy(TP::adopt(init), hy::strategy::<DefaultConfig>());
+    let c0 = model::cnt(init);
+    let m1 = Map::new(&s, p_addr);
+    let m2 = Map::new(Map::new(&s, p_addr), p_id);
     hooks_on();
     let g1 = Access::load(&m1);
     hooks_off();
@@ -72,27 +85,27 @@ pub(crate) fn c17_map_snapshot() {
     vassert!(model::writes() == 1, "map_load_is_exactly_one_container_load");
     let g2 = Access::load(&m2);
     hooks_on();
-    let i1: Inner = *g1;
-    let x2: u8 = *g2;
+    let a1: usize = *g1;
+    let a2: usize = *g2;
     hooks_off();
-    vassert!(model::steps() == 0, "projection_guard_deref_performs_no_container_access");
-    vassert!(i1 == v1.a && x2 == v1.a.x, "projection_guard_is_projection_of_the_snapshot");
+    vassert!(model::steps() == 0 && model::mon().seq == 0, "projection_guard_deref_performs_no_container_access");
+    vassert!(a1 == model::addr(init) && a2 == model::addr(init), "projection_guard_is_projection_of_the_snapshot");
     // store another value while the guards live
-    s.store(Arc::new(v2));
-    vassert!(Arc::strong_count(&a1) >= 2, "snapshot_kept_alive_by_projection_guards");
+    s.store(fresh_handle(other));
+    vassert!(model::ledger().alive[init] && model::cnt(init) == c0 - 1 + 2, "snapshot_kept_alive_by_projection_guards");
     hooks_on();
-    let i1b: Inner = *g1;
-    let x2b: u8 = *g2;
+    let b1: usize = *g1;
+    let b2: usize = *g2;
     hooks_off();
-    vassert!(model::steps() == 0, "projection_guard_deref_after_store_performs_no_container_access");
-    vassert!(i1b == v1.a && x2b == v1.a.x, "projection_guard_keeps_denoting_its_snapshot_after_store");
+    vassert!(model::steps() == 0 && model::mon().seq == 0, "projection_guard_deref_after_store_performs_no_container_access");
+    vassert!(b1 == model::addr(init) && b2 == model::addr(init), "projection_guard_keeps_denoting_its_snapshot_after_store");
     // a fresh load projects the new value
     let g3 = Access::load(&m2);
-    vassert!(*g3 == v2.a.x, "load_after_completed_store_projects_the_new_value");
+    vassert!(*g3 == model::addr(other), "load_after_completed_store_projects_the_new_value");
     drop(g1);
     drop(g2);
     drop(g3);
-    vassert!(Arc::strong_count(&a1) == 1, "dropping_projection_guards_releases_the_snapshot");
+    vassert!(model::cnt(init) == c0 - 1, "dropping_projection_guards_releases_the_snapshot");
     mem::forget(s);
     vcover!("c17_map_snapshot_end");
 }
@@ -101,8 +114,11 @@ pub(crate) fn c17_map_snapshot() {
 // @harness name=c17_dyn_and_constant props=C17 tier=quick flavour=nostd timeout=2400 fn=DynAccess::load+AccessConvert::load+Constant::load+DirectDeref::deref
 #[cfg_attr(kani, kani::proof)]
 #[cfg_attr(kani, kani::stub(crate::debt::Debt::pay_all, crate::debt::verif_h::pay_all_stub))]
+#[cfg_attr(kani, kani::stub(crate::debt::LocalNode::with, crate::debt::verif_h::list_h::with_static))]
+#[cfg_attr(kani, kani::stub(crate::debt::Node::get, crate::debt::verif_h::list_h::node_get_unexpected))]
 #[cfg_attr(kani, kani::unwind(12))]
 pub(crate) fn c17_dyn_and_constant() {
+    crate::debt::verif_h::list_h::setup_thread_node();
     let v1 = any_cfg();
     let a1 = Arc::new(v1);
     let s: Arc<S> = Arc::new(ArcSwapAny::with_strategy(a1.clone(), hy::strategy::<DefaultConfig>()));
